@@ -117,3 +117,46 @@ func H_C17_factories() {
 		vAssert("usable-dec", err == nil && out.(int32) == x)
 	}
 }
+
+// H_C17_retention_all_pools: for each of the three public pools and every configured size 0..3: take size+2
+// objects (all distinct, all fresh), return them all, take size+2 again: at most `size` of the objects handed out
+// the second time are ones returned before (each at most once), the others are fresh; no call blocks.
+// (The property allows a pool to keep fewer: only the upper bound is asserted.)
+func H_C17_retention_all_pools() {
+	size := vChoice("size", 4)
+	var p Pool
+	switch vChoice("pool", 3) {
+	case 0:
+		p = NewEncoderPool(size, map[string]string{})
+	case 1:
+		p = NewDecoderPool(size, nil)
+	case 2:
+		p = NewSerializerPool(size, nil, map[string]string{})
+	}
+	n := size + 2
+	first := make([]interface{}, n)
+	for i := range first {
+		first[i] = p.Get()
+		vAssert("usable", first[i] != nil)
+		for j := 0; j < i; j++ {
+			vAssert("distinct-holders", first[i] != first[j])
+		}
+	}
+	for _, o := range first {
+		p.Return(o)
+	}
+	reused := 0
+	second := make([]interface{}, n)
+	for i := range second {
+		second[i] = p.Get()
+		for j := 0; j < i; j++ {
+			vAssert("handed-out-once", second[i] != second[j])
+		}
+		for _, o := range first {
+			if second[i] == o {
+				reused++
+			}
+		}
+	}
+	vAssert("retains-no-more-than-its-size", reused <= size)
+}
